@@ -122,6 +122,67 @@ def lexer_traces(run, prop):
     return n
 
 
+TRACE_ENV_CFG = """CONSTANTS
+  TracePath = "%s"
+SPECIFICATION Spec
+INVARIANTS LoopReserved Gen
+CHECK_DEADLOCK FALSE
+"""
+
+ENV_KINDS = {"retyped": "C04", "loop-assigned": "C04", "loop-meta": "C03"}
+
+
+def env_traces(run, prop, case_files, max_per_file=0, corpus=True):
+    """Record traces of the evaluator's scope machine (hooks in packages object and evaluator) on model-generated
+    programs and on the inputs of the repository's own tests; validate them against spec/Trace_Env.tla."""
+    shards = 8
+    base = os.path.join(run.dir, "envtraces.ndjson")
+    args = ["envtrace", "-cases", ",".join(case_files), "-out", base, "-shards", str(shards), "-max", str(max_per_file)]
+    if corpus:
+        args += ["-corpus", repo_corpus(run)]
+    skip = []
+    while True:
+        out = run.harness_cmd(args + ["-skip", ",".join(skip)], ok_codes=(0, 4)).strip().splitlines()[-1]
+        if not out.startswith("TIMEOUT"):
+            break
+        skip.append(out.split()[1])          # a program that does not end (e.g. '@for(;;)1@end' of the repository's tests)
+        if len(skip) > 8:
+            raise vp.Infra("scope trace recording: more than 8 programs did not end")
+    if skip:
+        run.notes.append("scope traces: %d program(s) that did not end within 8 s were left out" % len(skip))
+    n = int(out)
+    files = ["%s.%d" % (base, s) for s in range(shards)]
+    jobs = [dict(module="Trace_Env", cfg=TRACE_ENV_CFG % f, name="Trace_Env_%d" % i, timeout=3000, workers=1)
+            for i, f in enumerate(files) if os.path.getsize(f) > 0]
+    sts = run.tlc_many(jobs, parallel=8)
+    events = 0
+    for job, st in zip(jobs, sts):
+        vpath, cnt = run.records(st)
+        rep = json.loads(open(vpath).readline())
+        if rep["consumed"] != rep["lines"]:
+            raise vp.Infra("scope trace validation consumed %d of %d events" % (rep["consumed"], rep["lines"]))
+        events += rep["lines"]
+        trace = None
+        for v in rep["bad"]:
+            if trace is None:
+                trace = [json.loads(x) for x in open(job["cfg"].split('"')[1])]
+            src = next((e["src"] for e in trace if e["op"] == "reset" and e["prog"] == v["prog"]), "?")
+            owner = ENV_KINDS.get(v["kind"])
+            if owner is None or owner != prop:
+                run.counts["drift"] += 1
+                if len(run.notes) < 5:
+                    run.notes.append("scope trace %s in %r: %s %s: %s" % (v["kind"], src[:200], v["op"], v["key"], v["detail"]))
+                continue
+            run.results.append({"id": "scope-trace prog %d event %d" % (v["prog"], v["line"]), "status": "viol", "kind": v["kind"],
+                                "family": "envtrace",
+                                "msg": "trace validation: while rendering %r the recorded %s(%s) is one the property forbids: %s"
+                                       % (src[:300], v["op"], v["key"], v["detail"]),
+                                "tags": ["trace", v["kind"]], "case": {"src": src, "event": v}})
+    run.counts["traces"] += n
+    run.counts["trace_events"] = run.counts.get("trace_events", 0) + events
+    return n
+
+
 def lexer_check(run, prop, rule):
     files = lexer_generate(run, prop)
     for f in files:
@@ -270,14 +331,22 @@ CHECK_DEADLOCK FALSE
 """ % (family, "TRUE" if emit else "FALSE", EVAL_INV)
 
 
-def eval_check(run, fams, rule, assumptions=None):
+def eval_check(run, fams, rule, assumptions=None, traces=False):
     sts = run.tlc_many([dict(module="MC_Eval", cfg=eval_cfg(fam), name="MC_Eval_" + fam, timeout=3000, workers=2)
                         for fam in fams])
+    paths = []
     for fam, st in zip(fams, sts):
         path, n = run.records(st)
+        paths.append(path)
         # every program is rendered through EvaluateString and, written to a file, through NewTemplate + String
         run.replay("render", path, name="render-" + fam, env={"TWH_ALSO_TEMPLATE": "1"})
         run.add_samples(path, 1)
+    if traces and not run.results:      # with a violation already found the replay decides; traces need programs that end
+        env_traces(run, run.prop, paths, max_per_file=1500 if run.tier == "quick" else 0)
+        rule += ("; plus trace validation of the scope machine: every scope creation, Set, SetLoopVar and identifier lookup "
+                 "recorded from the real evaluator on these programs and on the inputs of the repository's own tests is "
+                 "stepped against spec/Trace_Env.tla by TLC, which predicts each logged result from the reconstructed "
+                 "scope chain (a Set stores exactly when the name is not loop and not visible with another type)")
     return vp.finish(run, "model_checking", rule, exhaustive=True,
                      assumptions=(assumptions or []) + ["TLC 1.8.0; expected outputs come from spec/TwEval.tla, "
                                                         "written from the property statements"])
@@ -301,7 +370,7 @@ def c03(run):
                       "with each of 8 jump directives at every position of the body, bare and under nested @if/@else; "
                       "@for with 6 init/condition/step heads; every combination of loop kinds nested with jumps in "
                       "the inner loop and in its @else body; non-array headers of every kind; TLC checks LoopMeta, "
-                      "ScopeBalance, OutMonotone on every state")
+                      "ScopeBalance, OutMonotone on every state", traces=True)
 
 
 @check("C04")
@@ -311,7 +380,8 @@ def c04(run):
                       "assignments and reads of names x, y with values of six types before / inside / after each of 9 "
                       "block skeletons (flat, if, else, each, for, each-in-if, loops binding x itself) x 4 data maps "
                       "pre-binding the names; 'loop' as assignment target and as data key; reads after the construct "
-                      "of names bound inside it; TLC checks TypeStable, LoopReserved, ScopeBalance on every state")
+                      "of names bound inside it; TLC checks TypeStable, LoopReserved, ScopeBalance on every state",
+                      traces=True)
 
 
 # ------------------------------------------------------------------ C10, C13
